@@ -208,6 +208,7 @@ func (envs *Manager) CreateEnvironment(workflowPath string, userVars map[string]
 	// loading the workflow in order to compare the currently used detectors with the detectors required by the newly
 	// created environment.
 	alreadyActiveDetectors := envs.GetActiveDetectors()
+	verifhook.Point("envman.create.snapshot", "env", newId.String(), "vars", userVars, "active", alreadyActiveDetectors.StringList())
 
 	lastRequestUser := &evpb.User{}
 	lastRequestUserJ, ok := userVars["last_request_user"]
@@ -400,6 +401,7 @@ func (envs *Manager) CreateEnvironment(workflowPath string, userVars map[string]
 	envs.m[env.id] = env
 	envs.pendingStateChangeCh[env.id] = env.stateChangedCh
 	envs.mu.Unlock()
+	verifhook.Point("envman.create.registered", "env", env.id.String(), "detectors", neededDetectors.StringList())
 	log.WithField("method", "CreateEnvironment").
 		WithField("level", infologger.IL_Devel).
 		Debug("envman write unlock")
